@@ -189,6 +189,19 @@ CHECKS.update({
         design_ref='DESIGN.md §3.5, §4 C20', note=BP_NOTE),
 })
 
+
+CHECKS.update({
+    'C15': dict(
+        technique='OalExec.tla Call / Args / Derived (own variable scope, parameters by name, self, shared model, value of the executed '
+                  'return) evaluated by TLC on generated call graphs and compared (OalCallTrace.tla) with invoking the functions, class and '
+                  'instance operations, bridges, derived attributes, enumerators and constants of a synthesised BridgePoint model from OAL '
+                  'bodies and from Python',
+        text='Recursion, mutual recursion, callees that assign their callers\' variable names, by-name arguments in permuted order, bare '
+             'and missing returns, calls inside expressions, where clauses and loop conditions; model rows shuffled so that nothing may '
+             'depend on row order.',
+        design_ref='DESIGN.md §3.4, §4 C15', note=OAL_NOTE + '; ' + BP_NOTE),
+})
+
 NOT_YET = {}
 
 
